@@ -15,4 +15,5 @@ def run(ctx, rep):
     objmodel.rule_converters_convert_members(ctx, rep, "C03-R8")
     objmodel.rule_optional_attributes_mapped(ctx, rep, "C03-R9")
     objmodel.rule_embedder_values_stay_outside(ctx, rep, "C03-R10")
+    objmodel.rule_one_spelling_of_nothing(ctx, rep, "C03-R11")
     rep.undecided += ["that every value computed by host arithmetic lies in the JavaScript value domain for all inputs (e.g. complex results of **): a value property"]
